@@ -82,6 +82,11 @@ func (k msgServer) depositForBurn(
 	if !strings.EqualFold(denom.Denom, burnToken) {
 		return 0, errors.Wrapf(types.ErrBurn, "burning denom: %s is not supported", burnToken)
 	}
+	// EqualFold also matches spellings outside the denom grammar (e.g. U+017F for "s"),
+	// which sdk.NewCoin below would panic on
+	if err := sdk.ValidateDenom(burnToken); err != nil {
+		return 0, errors.Wrapf(types.ErrBurn, "burning denom: %s is not supported", burnToken)
+	}
 
 	// check if burning/minting is paused
 	paused, _ := k.GetBurningAndMintingPaused(ctx)
